@@ -172,13 +172,15 @@ def run(F, rep, tier):
                     if any(r.startswith("crc32fast") for r in roots) and any(r.endswith("read_u32") for r in roots):
                         t = blk["t"]
                         if t["k"] == "switch":
-                            succ = v.succ(i)
-                            r0 = v.reachable_from([succ[0]])
-                            r1 = v.reachable_from([succ[-1]])
-                            if (r0 & err_exits or r1 & err_exits) and (r0 & ok_exits or r1 & ok_exits) and not ((r0 & err_exits) and (r1 & err_exits) and not (r0 & ok_exits or r1 & ok_exits)):
-                                # one side must be Err-only
-                                side_err_only = (bool(r0 & err_exits) and not (r0 & ok_exits)) or (bool(r1 & err_exits) and not (r1 & ok_exits))
-                                cmp_ok = cmp_ok or side_err_only
+                            false_t = [tgt for val, tgt in t.get("targets", []) if val == 0]
+                            true_t = t.get("else")
+                            if false_t and true_t is not None:
+                                mismatch_t, match_t = (true_t, false_t[0]) if s["op"] == "Ne" else (false_t[0], true_t)
+                                rm = v.reachable_from([mismatch_t])
+                                rk = v.reachable_from([match_t])
+                                # the mismatch edge must end in Err only, the match edge must be able to return Ok
+                                if (rm & err_exits) and not (rm & ok_exits) and (rk & ok_exits):
+                                    cmp_ok = True
         rep.check(cmp_ok, "C07-R1", "%s:compares-hash-with-trailer" % v.fn,
                   "the verifier does not branch to Err on (hash of the payload != stored trailer)", v.where(), sample={"hash_calls": len(hashes), "trailer_reads": len(reads)})
         # the hashed buffer length is total_len - 4 : from_elem size derives from a Sub with constant 4 of the length parameter
